@@ -1,10 +1,97 @@
-(* Property C04 -- statements only (proofs in Proofs/ExecProofs.v). *)
-From Coq Require Import List String.
-From GQL Require Import Exec.Syntax Exec.Coerce Exec.Exec Exec.Request Proofs.ExecProofs.
+(* Property C04 -- responses are well-formed for schema and query whatever resolvers return.
+   Statements only; proofs in Proofs/ConformProofs.v and Proofs/ExecInv.v.
+   The theorems quantify over every oracle of resolver outcomes (values of the wrong kind, nil,
+   typed nil, NaN, errors, value+error, panics, thunks) and every runtime-type oracle
+   (nil, non-possible types): nothing is assumed about them. *)
+From Coq Require Import List String Bool NArith ZArith.
+From GQL Require Import Exec.Syntax Exec.Coerce Exec.Exec Exec.Conform Exec.Request
+     Proofs.ExecInv Proofs.ConformProofs.
 Import ListNotations.
+Open Scope string_scope.
+Open Scope list_scope.
 
-(* A failure is absorbed exactly at nullable positions: completing at a nullable type never raises. *)
-Theorem C04_catch_nullable : forall t r, is_nonnull t = false ->
-  forall e s, catch_at t r <> XRaise e s.
-Proof. exact catch_at_nullable. Qed.
-Print Assumptions C04_catch_nullable.
+(* The data of every completed request conforms to schema and query (Exec/Conform.v): it is an
+   object holding exactly the collected response keys that name a field, every value conforms to
+   its own field's type -- a non-null position is never null, list positions hold lists or null,
+   leaves are legal serialisations (Int within 32 bits, enum value names, ...), objects
+   recursively for the runtime type -- and nothing deferred is left in it. *)
+Theorem C04_conforms : forall fuel S D opn inputs root or tor d s,
+  request fuel S D opn inputs root or tor = RDone (Some d) s ->
+  exists op rt vars g fs,
+    get_operation D opn = Some op /\ root_type S op = Some rt /\
+    get_variable_values fuel S (o_vars op) inputs = Some (inl vars) /\
+    (exists v, collect fuel S D vars rt (o_sel op) [] [] = Some (g, v)) /\
+    let E := {| en_S := S; en_D := D; en_vars := vars; en_or := or; en_tor := tor;
+                en_serial := match o_kind op with OpMutation => true | _ => false end |} in
+    PConfG E rt g fs /\ thunks (QObj fs) = [] /\ d = to_resp (QObj fs).
+Proof. exact request_conforms. Qed.
+Print Assumptions C04_conforms.
+
+(* The same at every depth: whatever value is completed against whatever type, the result conforms. *)
+Theorem C04_complete_conforms : forall E fuel t nodes occs fpath p v s q s',
+  complete fuel E t nodes occs fpath p v s = XOk q s' -> PConf E t occs q.
+Proof.
+  intros E fuel t nodes occs fpath p v s q s' H.
+  pose proof (proj1 (conf_inv E fuel) t nodes occs fpath p v s) as Hc. rewrite H in Hc. exact (proj1 Hc).
+Qed.
+Print Assumptions C04_complete_conforms.
+
+(* A failure becomes null exactly at the nearest nullable position, together with its error;
+   at a non-null position it moves on to the enclosing position. *)
+Theorem C04_failure_nulls_nearest_nullable : forall t e s,
+  (is_nonnull t = false -> catch_at t (XRaise e s) = XOk QNull (add_err e s)) /\
+  (is_nonnull t = true -> catch_at t (XRaise e s) = XRaise e s).
+Proof. intros t e s. unfold catch_at. split; intros ->; reflexivity. Qed.
+Print Assumptions C04_failure_nulls_nearest_nullable.
+
+(* Errors recorded for other fields are kept: executing any selection set only ever appends to the
+   error list, and every error it appends (or raises) carries a path below the selection set's own. *)
+Theorem C04_errors_kept : forall fuel E obj src g p s,
+  match exec_groups fuel E obj src g p s with
+  | XOk _ s' => exists es, st_errs s' = st_errs s ++ es /\ Forall (fun e => prefix p (e_path e)) es
+  | XRaise e s' => (exists es, st_errs s' = st_errs s ++ es /\ Forall (fun e => prefix p (e_path e)) es)
+                   /\ prefix p (e_path e)
+  | XFuel => True
+  end.
+Proof.
+  intros fuel E obj src g p s.
+  pose proof (proj1 (proj2 (proj2 (exec_inv fuel))) E obj src g p s) as H.
+  destruct (exec_groups fuel E obj src g p s) as [fs s'|e s'|]; cbn in H; auto.
+  - destruct H as [[_ He] _]. exact He.
+  - destruct H as [[_ He] Hp]. split; assumption.
+Qed.
+Print Assumptions C04_errors_kept.
+
+(* ---- non-vacuity: adversarial outcomes (an out-of-range Int, a value returned together with an
+        error, a non-iterable for a list, a failing non-null child) give a conforming response ---- *)
+Definition S4 : schema := {|
+  s_types := [("Int", TScalar SInt); ("String", TScalar SString);
+              ("O", TObject [{| f_name := "n"; f_args := []; f_type := TNonNull (TNamed "Int") |}] []);
+              ("Q", TObject [{| f_name := "i"; f_args := []; f_type := TNamed "Int" |};
+                             {| f_name := "s"; f_args := []; f_type := TNamed "String" |};
+                             {| f_name := "l"; f_args := []; f_type := TList (TNamed "Int") |};
+                             {| f_name := "o"; f_args := []; f_type := TNamed "O" |}] [])];
+  s_query := "Q"; s_mutation := None |}.
+Definition D4 : document := {|
+  d_ops := [{| o_kind := OpQuery; o_name := None; o_vars := [];
+               o_sel := [SField 2%N None "i" [] [] []; SField 4%N None "s" [] [] []; SField 6%N None "l" [] [] [];
+                         SField 8%N None "o" [] [] [SField 12%N None "n" [] [] []]] |}];
+  d_frags := [] |}.
+Definition or4 : oracle := fun p =>
+  match p with
+  | [PKey "i"] => Some (OVal (RInt 2147483648%Z))
+  | [PKey "s"] => Some (OValErr (RStr "leak"))
+  | [PKey "l"] => Some (OVal (RInt 5%Z))
+  | [PKey "o"] => Some (OVal (RObj 1%N "O"))
+  | [PKey "o"; PKey "n"] => Some (OThunk OErr)
+  | _ => None
+  end.
+
+Example C04_nonvacuous :
+  match request 20 S4 D4 None [] (RObj 0%N "root") or4 (fun _ => None) with
+  | RDone (Some d) s =>
+    d = PObj [("i", PNull); ("s", PNull); ("l", PNull); ("o", PNull)] /\
+    map e_path (st_errs s) = [[PKey "s"]; [PKey "l"]; [PKey "o"; PKey "n"]]
+  | _ => False
+  end.
+Proof. vm_compute. split; reflexivity. Qed.
